@@ -407,7 +407,7 @@ def _f4_worker(nm):
     f = funcs[nm]
     res = {"err": None, "undecided": None, "findings": [], "sites": {}}
     a = F4(prog, W)
-    a.swallow_for = W0
+    a.swallow_for = W if nm in _PAR.get("slotfns", ()) else W0
     a.fails = FAIL_OVERRIDE.get(nm) or fail_values(f, prog)
     try:
         a.run(f)
@@ -418,7 +418,7 @@ def _f4_worker(nm):
         # the path environment was dropped on some path: exit classification is unreliable there, so a report
         # could be a false alarm -- retry with a larger state budget, then refuse to decide
         a = F4(prog, W)
-        a.swallow_for = W0
+        a.swallow_for = W if nm in _PAR.get("slotfns", ()) else W0
         a.STATE_CAP = 1500
         a.fails = FAIL_OVERRIDE.get(nm) or fail_values(f, prog)
         try:
@@ -534,7 +534,10 @@ def rule_F4(ctx):
             # (DESIGN 11.4)
             continue
         todo.append(nm)
-    _PAR.update(prog=prog, W=W, W0=W0, funcs=funcs)
+    # In an end-of-access or write routine of a function table a tested failure of *any* failure-propagating callee is a
+    # storage failure (there is no 'not found' to continue after), so 'swallowed' is decided there for derived callees too.
+    slotfns = {t for (rec, fld), targets in prog.fp_targets().items() if rec == "funclist_t" and fld in ("write", "endaccess") for t in targets}
+    _PAR.update(prog=prog, W=W, W0=W0, funcs=funcs, slotfns=slotfns)
     results = pmap(_f4_worker, todo, "f4main")
     for nm in todo:
         f = funcs[nm]
@@ -567,7 +570,7 @@ def rule_F4(ctx):
             for (what, cal), lines in per.items():
                 if cal != callee:
                     continue
-                if what == "swallowed" and callee not in W0:
+                if what == "swallowed" and callee not in W0 and nm not in slotfns:
                     # the failure value of a derived function also encodes 'not found' / 'end of iteration': going on
                     # after a tested failure is ordinary control flow there; only the seed functions fail for storage
                     # reasons alone (DESIGN: clause not decided)
